@@ -187,6 +187,11 @@ def normalise_module(relpath: str, tree: ast.Module) -> list[str]:
     if not base:
         return []
     notes = []
+    known = base.get("__functions__")
+    if known is not None:
+        from .inline import inline_new_helpers
+
+        notes += [f"{relpath}: {n}" for n in inline_new_helpers(tree, set(known))]
     for cls_name, node in _functions(tree):
         key = f"{cls_name}.{node.name}" if cls_name else node.name
         b = base.get(key)
@@ -219,13 +224,16 @@ def generate(root: str) -> dict[str, T.Any]:
             p = os.path.join(dirpath, fn)
             rel = os.path.relpath(p, root)
             tree = ast.parse(open(p, encoding="utf-8").read())
-            entry = {}
+            entry: dict[str, T.Any] = {}
+            names = []
             for cls_name, node in _functions(tree):
+                key = f"{cls_name}.{node.name}" if cls_name else node.name
+                names.append(key)
                 sigs = signatures(node)
                 if sigs:
-                    entry[f"{cls_name}.{node.name}" if cls_name else node.name] = [[n, s] for n, s in sigs]
-            if entry:
-                out[rel] = entry
+                    entry[key] = [[n, s] for n, s in sigs]
+            entry["__functions__"] = sorted(names)
+            out[rel] = entry
     return out
 
 
@@ -236,4 +244,4 @@ if __name__ == "__main__":
     with open(BASELINE, "w", encoding="utf-8") as f:
         json.dump(data, f, indent=0, sort_keys=True)
         f.write("\n")
-    print(f"baseline written: {sum(len(v) for v in data.values())} functions in {len(data)} files")
+    print(f"baseline written: {sum(len(v.get('__functions__', [])) for v in data.values())} functions in {len(data)} files")
